@@ -125,6 +125,9 @@ def evaluate(src, ns):
     return eval(src, g)
 
 
+UNEVALUABLE = "field annotation does not evaluate"
+
+
 class Fail:
     """Innermost reason why a value does not belong to a type."""
 
@@ -169,7 +172,7 @@ def conforms(v, T, ns, depth=0, lenient_empty=False):
             try:
                 ft = evaluate(src, ns)
             except Exception as e:
-                return Fail(val, src, "field annotation does not evaluate: %r" % (e,))
+                return Fail(val, src, UNEVALUABLE + ": %r" % (e,))
             f = conforms(val, ft, ns, depth + 1, lenient_empty)
             if f:
                 return f
@@ -183,6 +186,9 @@ def conforms(v, T, ns, depth=0, lenient_empty=False):
             if f is None:
                 return None
             last = f if last is None or _deeper(f, last, v) else last
+            if f.why.startswith(UNEVALUABLE):
+                # an alternative that cannot even be evaluated with the stub's names: that, not the mismatch with a sibling, is the finding
+                return f
         return last or Fail(v, T, "no union member")
     if origin in (list, set, frozenset):
         if not isinstance(v, origin):
